@@ -28,7 +28,7 @@ Steps(c) ==
     [] c.ctx \in {"enum-const", "enum-default", "enum-list"} -> << EnumValueStep(LimbsOf(c.items[1].lit), FALSE) >>
     [] OTHER -> <<>>
 
-MustReject(c) == c.ctx \in {"dup-id", "dup-name", "dup-item", "dup-item-case", "self-const", "self-const-2", "self-service", "self-service-2", "dup-fn", "throws-typedef", "throws-struct", "throws-primitive", "oneway-result", "oneway-throws", "dup-param-id", "dup-param-name", "dup-throws-id", "union-required", "extends-struct", "extends-missing", "dup-type-name"}
+MustReject(c) == c.ctx \in {"dup-id", "dup-name", "dup-item", "dup-item-case", "self-const", "self-const-2", "self-const-struct", "self-const-struct-2", "self-const-list", "self-service", "self-service-2", "dup-fn", "throws-typedef", "throws-struct", "throws-primitive", "oneway-result", "oneway-throws", "dup-param-id", "dup-param-name", "dup-throws-id", "union-required", "extends-struct", "extends-missing", "dup-type-name"}
 NumTy(c) == IF c.ctx \in {"enum", "enum-const", "enum-default", "enum-list"} THEN "i32" ELSE IF c.ctx \in {"fields-strict", "fields-nonstrict"} THEN "i16" ELSE c.ty
 
 Checks(e) ==
